@@ -9,5 +9,5 @@ git -C /repo worktree add --detach -q $wt HEAD || exit 2
 ( cd $wt && { git apply --3way "$patch" 2>/dev/null || git apply "$patch"; } ) || { echo "patch does not apply"; git -C /repo worktree remove --force $wt; echo "exit=2"; exit 2; }
 cd /verif && VERIF_REPO=$wt VERIF_WORK_SUFFIX=-try$tag ./vcheck "$prop" --no-evidence "$@"; rc=$?
 git -C /repo worktree remove --force $wt
-rm -rf /verif/work/$prop-try$tag
+rm -rf /verif/work/*-try$tag /verif/work/*-try$tag-prep
 echo "exit=$rc"
